@@ -400,23 +400,30 @@ def gen_gfield_type(r, params, assoc_ok, selfref):
     return T('u', n=8)
 
 
-def gen_gen(r):
+def gen_gen(r, force=None):
     np = r.choice([1, 1, 2, 2])
     names = ['T', 'U'][:np]
     with_assoc = [r.random() < 0.3 for _ in names]
     skipped = [r.random() < 0.25 for _ in names]
-    lifetime = r.random() < 0.15
-    const = r.random() < 0.15
+    lifetime = r.random() < 0.2
+    const = r.random() < 0.2
+    const_first = r.random() < 0.5     # `const N: usize` before the type parameters (allowed since Rust 1.59) or after them
     default_u = np == 2 and r.random() < 0.2 and not with_assoc[1]
     if default_u:
         const = False   # a parameter with a default must be trailing
     qself = r.random() < 0.06
-    args_text = ', '.join((["'a"] if lifetime else []) + names + (['N'] if const else []))
+    if force is not None:
+        # the fixed part of the corpus: every layout of the generics list x every skip pattern, plain members
+        np, names, with_assoc, default_u, qself = 2, ['T', 'U'], [False, False], False, False
+        lifetime, const, const_first, skipped = force['lifetime'], force['const'] != 'none', force['const'] == 'first', force['skipped']
+    args_text = ', '.join((["'a"] if lifetime else []) + (['N'] if (const and const_first) else []) + names + (['N'] if (const and not const_first) else []))
     self_text = ('crate::S' if qself else 'S')
     me = Named('self', text=f'{self_text}<{args_text}>')
     selfref = r.choice([T('opt', T('box', me)), T('vec', me), T('box', T('opt', me))]) if False else r.choice([T('opt', T('box', me)), T('vec', me)])
-    nf = r.choice([1, 2, 2, 3, 4])
+    nf = r.choice([1, 2, 2, 3, 4]) if force is None else 0
     fields = []
+    if force is not None:
+        fields = [[(T('ph', P(k)) if skipped[k] else P(k)), False, False] for k in range(np)]
     for _ in range(nf):
         ty = gen_gfield_type(r, names, with_assoc, selfref)
         skip = r.random() < 0.2
@@ -427,7 +434,7 @@ def gen_gen(r):
         if with_assoc[k] and r.random() < 0.6:
             fields.insert(r.randrange(len(fields) + 1), [r.choice([AS(k), T('vec', AS(k)), T('opt', AS(k))]), False, False])
     # the same parameter-dependent type used plainly and, later or earlier, as a compact member
-    if r.random() < 0.3:
+    if r.random() < 0.3 and force is None:
         k = r.randrange(np)
         pair = [[P(k), False, False], [P(k), False, True]]
         if r.random() < 0.5:
@@ -442,7 +449,7 @@ def gen_gen(r):
         if not any(uses(f[0]) for f in fields):
             fields.append([T('ph', P(k)), False, False])
     custom = None
-    if r.random() < 0.2 and not any(with_assoc):
+    if r.random() < 0.2 and not any(with_assoc) and force is None:
         custom = [k for k in range(np) if not skipped[k]]
         # custom bounds must be sufficient for the body: every kept member type must follow from P: TypeInfo
         for f in fields:
@@ -474,8 +481,9 @@ def gen_gen(r):
             preds.append(f'{names[k]}: Mk')
     if r.random() < 0.1:
         preds.append('T: Sized')
-    gens = (["'a"] if lifetime else []) + [nm + (': Tr' if (with_assoc[k] and not tr_in_where[k]) else '') + (' = u8' if (default_u and k == 1) else '') for k, nm in enumerate(names)] + \
-        (['const N: usize'] if const else [])
+    gens = (["'a"] if lifetime else []) + (['const N: usize'] if (const and const_first) else []) + \
+        [nm + (': Tr' if (with_assoc[k] and not tr_in_where[k]) else '') + (' = u8' if (default_u and k == 1) else '') for k, nm in enumerate(names)] + \
+        (['const N: usize'] if (const and not const_first) else [])
     attrs = []
     if any(skipped):
         attrs.append('skip_type_params(' + ', '.join(nm for k, nm in enumerate(names) if skipped[k]) + ')')
@@ -501,7 +509,11 @@ def gen_gen(r):
     else:
         body = ''.join(fline(i, f, 'pub ') for i, f in enumerate(fields)) + ''.join(e.format(pub='pub ') for e in extra)
         src += f'pub struct S<{", ".join(gens)}>{where} {{\n{body}}}\n'
-    iargs = (["'static"] if lifetime else []) + [t.rust() for t in (inst[:1] if omit_default else inst)] + (['3'] if const else [])
+    if force is not None:
+        # a skipped parameter is instantiated with a type that has no TypeInfo: only a correct where clause accepts it
+        inst = [Named('NoInfo') if skipped[k] else T('u', n=8) for k in range(np)]
+    iargs = (["'static"] if lifetime else []) + (['3'] if (const and const_first) else []) + [t.rust() for t in (inst[:1] if omit_default else inst)] + \
+        (['3'] if (const and not const_first) else [])
     src += f'fn main() {{\n    let _ = scale_info::meta_type::<S<{", ".join(iargs)}>>();\n}}\n'
     # ---------------- proto
     pr = f'{int(qself)} ' + plist(list(range(np)), lambda k: f'{hexs(names[k])} {int(skipped[k])}') + ' ' + \
@@ -524,6 +536,15 @@ def main():
     os.makedirs(bind)
     classes = a.classes.split(',')
     lines = []
+    if 'gen' in classes:
+        kx = 0
+        for lifetime in (False, True):
+            for const in ('none', 'last', 'first'):
+                for skipped in ([False, False], [True, False], [False, True], [True, True]):
+                    src, p = gen_gen(random.Random(7000 + kx), force=dict(lifetime=lifetime, const=const, skipped=skipped))
+                    open(os.path.join(bind, f'xg{kx}.rs'), 'w').write(src)
+                    lines.append(f'neg xg{kx} gen {p}')
+                    kx += 1
     if 'bld' in classes:
         # exhaustive small part, the same in every run: every sequence of 1..3 field-builder calls over {name, ty, compact, type_name}
         # in a named and in an unnamed member list (compile-time form), as the only member of a composite and of a variant
